@@ -194,6 +194,37 @@ def scaled(q, e):
     return q * (Fraction(2) ** e)
 
 
+# ------------------------------------------------------------------ parameter names
+def enc_name(nm):
+    """protocol token of a parameter name: hex of its UTF-8 bytes (order isomorphic to the code point order)"""
+    return nm.encode('utf-8').hex()
+
+
+def dec_name(tokn):
+    return bytes.fromhex(tokn).decode('utf-8')
+
+
+NAME_POOLS = [
+    ('plain', ['p', 'q', 'r']),
+    ('digits', ['user2', 'user10', 'user1']),           # numeric suffixes of different lengths
+    ('digits', ['ant4', 'ant16', 'ant160']),
+    ('digits', ['x9', 'x10', 'x100']),
+    ('case', ['a', 'B', 'c']),                          # sorted() is case sensitive: 'B' < 'a'
+    ('case', ['snr', 'SNR', 'Snr']),                    # equal up to case
+    ('prefix', ['snr', 'snr2', 'snr10']),               # prefixes of each other
+    ('leading', ['_p', '1p', 'p']),                     # leading underscore / digit
+    ('unicode', ['\u00e9', 'z', '\u00fc']),             # beyond ASCII: code point order
+    ('unicode', ['\u03b1', 'a2', 'a10']),
+]
+
+
+def pick_names(rng, n):
+    kind, pool = rng.choice(NAME_POOLS)
+    names = list(pool)
+    rng.shuffle(names)
+    return kind, names[:n]
+
+
 # ------------------------------------------------------------------ state of a real Result
 def res_state(r):
     res, _ = _impl()
@@ -208,13 +239,14 @@ def res_state(r):
 
 
 def params_state(p):
+    """canonical: names hex encoded, in Python's sorted() order of the names"""
     fixed, unp = [], []
     for k in sorted(p.parameters.keys()):
         v = p.parameters[k]
         if k in p._unpacked_parameters_set:
-            unp.append((k, tuple(rs(fr(x)) for x in np.asarray(v).ravel().tolist())))
+            unp.append((enc_name(k), tuple(rs(fr(x)) for x in np.asarray(v).ravel().tolist())))
         else:
-            fixed.append((k, int(v)))
+            fixed.append((enc_name(k), int(v)))
     return (tuple(fixed), tuple(unp))
 
 
@@ -274,11 +306,12 @@ class Impl:
                 if t[2] != '-':
                     for e in t[2].split('&'):
                         a, b = e.split('=')
-                        d[a] = int(b)
+                        d[dec_name(a)] = int(b)
                 if t[3] != '-':
                     dts = t[4] if len(t) > 4 else ''
                     for j, e in enumerate(t[3].split('&')):
                         a, b = e.split('=')
+                        a = dec_name(a)
                         d[a] = make_array([x for x in b.split(':') if x != ''], dts[j] if j < len(dts) else None)
                         unp.append(a)
                 p = par.SimulationParameters.create(d)
@@ -302,6 +335,9 @@ class Impl:
             elif k == 'cb':
                 u = res.combine_simulation_results(self.sims[int(t[1])], self.sims[int(t[2])])
                 self.sims.append(u)
+            elif k == 'up':
+                names = self.sims[int(t[1])].params.unpacked_parameters
+                self.outs.append('%d:names:%s' % (i, '&'.join(enc_name(nm) for nm in names)))
             elif k == 'g':
                 self.outs.append('%d:%s' % (i, show_get(self.ref(t[1]))))
             elif k == 'mn':
@@ -742,10 +778,11 @@ def gen_combine_script(rng, long=False):
         im.step(op)
 
     nunp = rng.choice([0, 1, 1, 2, 2]) if not long else rng.choice([0, 1, 2, 2, 3])
-    pn = ['p', 'q', 'r'][:nunp]
+    nkind, pn = pick_names(rng, nunp)             # real names, in dictionary (insertion) order
+    im.name_kind = nkind if nunp >= 2 else None
     names = ['a', 'b'][:rng.randint(1, 2)]
     spec = {nm: (rng.choice([0, 1, 2, 3]), rng.chance(0.25), rng.randint(1, 4)) for nm in names}
-    fixed = 'f=%d' % rng.randint(1, 3)
+    fixed = '%s=%d' % (enc_name('f'), rng.randint(1, 3))
     pools = [value_pool(rng) for _ in range(nunp)]
     for s in range(2):
         do('ns')
@@ -754,11 +791,17 @@ def gen_combine_script(rng, long=False):
         dts = ''.join(pv[1] for pv in picked)
         fx = fixed
         if rng.chance(0.04):
-            fx = 'f=9'
+            fx = '%s=9' % enc_name('f')
         if rng.chance(0.03):
-            fx = fixed + '&g=1'
-        unp = '&'.join('%s=%s' % (pn[j], ':'.join(tok(v) for v in grid[j])) for j in range(nunp)) or '-'
+            fx = fixed + '&%s=1' % enc_name(rng.choice(['g', 'F', 'f2']))
+        order = list(range(nunp))
+        if s == 1:
+            rng.shuffle(order)                    # the second operand's dictionary has another insertion order
+        unp = '&'.join('%s=%s' % (enc_name(pn[j]), ':'.join(tok(v) for v in grid[j])) for j in order) or '-'
+        dts = ''.join(picked[j][1] for j in order)
         do('sp,%d,%s,%s%s' % (s, fx, unp, (',' + dts) if dts else ''))
+        if rng.chance(0.3):
+            do('up,%d' % s)
         size = 1
         for g in grid:
             size *= len(g)
@@ -782,6 +825,7 @@ def gen_combine_script(rng, long=False):
     for pl in pools:
         im.kinds = getattr(im, 'kinds', []) + [pl[0]]
     if len(im.sims) == 3:
+        do('up,2')
         # touch the union: operands must not move (checked through the full dump)
         for nm, lst in im.sims[2]._results.items():
             for j in range(min(len(lst), 2)):
@@ -1321,10 +1365,10 @@ def build_grid_sim(fixed, names, grid, dtypes, specs, cells, np_salt=None, use_a
         containers[nm] = make_array([str(v) for v in vals], dtypes[j] if dtypes else None)
     if use_add:
         p = par.SimulationParameters()
+        for nm in reversed(names):              # dictionary order != sorted order
+            p.add(nm, containers[nm])
         for k, v in fixed:
             p.add(k, v)
-        for nm in names:
-            p.add(nm, containers[nm])
     else:
         d = dict(fixed)
         d.update(containers)
@@ -1375,13 +1419,17 @@ def o_combine(case):
     (exactly the operands' results AT THAT EXACT VALUE); operands untouched"""
     res, _ = _impl()
     specs = [tuple(x) for x in case['specs']]
-    names = case['pnames']                       # sorted names of the unpacked parameters
-    grids = case['grids']                        # two lists of value-token lists (no duplicates)
-    dtypes = case.get('dtypes') or [None, None]
+    # names of the unpacked parameters as given (dictionary order); the grid axes are in sorted() order
+    order = sorted(range(len(case['pnames'])), key=lambda j: case['pnames'][j])
+    names = [case['pnames'][j] for j in order]
+    grids = [[g[j] for j in order] for g in case['grids']]     # two lists of value-token lists (no duplicates)
+    dtypes = [(''.join(d[j] for j in order) if d else None) for d in (case.get('dtypes') or [None, None])]
     cells = case['cells']                        # two dicts name -> combination key -> observation list
     fixed = [tuple(x) for x in case['fixed']]
     tys = sorted({TYN[ty] for _, ty, _, _ in specs})
     pre = '%s:%s' % (grid_kind(grids), '+'.join(tys))
+    if len(names) >= 2 and case.get('name_kind') and case['name_kind'] != 'plain':
+        pre += ':names-' + case['name_kind']
     salt = case.get('np')
     use_add = bool(case.get('use_add'))
     if salt is not None:
@@ -1793,7 +1841,7 @@ def gen_appendall_case(rng):
 
 def gen_combine_case(rng, nunp=None, ty=None):
     nunp = rng.choice([0, 1, 1, 2, 2, 3]) if nunp is None else nunp
-    pn = ['p', 'q', 'r'][:nunp]
+    nkind, pn = pick_names(rng, nunp)
     nn = rng.randint(1, 2)
     specs = [[nm, rng.choice([0, 1, 2, 3]) if ty is None else ty, False, rng.randint(1, 4)]
              for nm in ['a', 'b'][:nn]]
@@ -1804,16 +1852,18 @@ def gen_combine_case(rng, nunp=None, ty=None):
         picked = [pick_values(rng, pl[1], pl[2], dup=0.0) for pl in pools]
         grid = [pv[0] for pv in picked]
         c = {}
+        order = sorted(range(nunp), key=lambda j: pn[j])     # cells are keyed in the sorted() order of the names
         for rn, t, acc, cn in specs:
             c[rn] = {}
-            for combo in itertools.product(*grid):
+            for combo in itertools.product(*[grid[j] for j in order]):
                 lo = 1 if t == TY['misc'] else 0
                 c[rn][combo_key(combo)] = gen_obs_list(rng, t, cn, rng.randint(lo, 3), scale=sc)
         grids.append([[tok(v) for v in vs] for vs in grid])
         dtypes.append(''.join(pv[1] for pv in picked))
         cells.append(c)
     return {'specs': specs, 'pnames': pn, 'grids': grids, 'dtypes': dtypes, 'cells': cells, 'fixed': [['f', 3]],
-            'kinds': [pl[0] for pl in pools], 'np': rng.below(1000) if rng.chance(0.35) else None,
+            'kinds': [pl[0] for pl in pools], 'name_kind': nkind,
+            'np': rng.below(1000) if rng.chance(0.35) else None,
             'use_add': rng.chance(0.5), 'scale': list(sc)}
 
 
@@ -1842,6 +1892,8 @@ def corr_scripts(ctx, drv, name, gen, count, long=False):
         im_c = im.canon()
         for kd in getattr(im, 'kinds', []):
             ctx.branch('script:values=' + kd)
+        if getattr(im, 'name_kind', None):
+            ctx.branch('script:names=' + im.name_kind)
         if getattr(im, 'np_updates', 0):
             ctx.branch('script:R1:np-scalars', im.np_updates)
         sc = getattr(im, 'scale', (0, 0))
@@ -1955,7 +2007,7 @@ def corr_float_stream(ctx, drv, count):
 
 def correspondence(ctx, quick):
     drv = core.Driver(DRIVER)
-    k = 4 if quick else 40
+    k = 4 if quick else 30
     corr_scripts(ctx, drv, 'Result.script', gen_result_script, 600 * k, long=not quick)
     corr_scripts(ctx, drv, 'SimulationResults.script', gen_sim_script, 500 * k, long=not quick)
     corr_scripts(ctx, drv, 'combine.script', gen_combine_script, 300 * k, long=not quick)
@@ -2011,7 +2063,7 @@ def note_case(ctx, case):
 
 
 def oracles(ctx, quick):
-    k = 4 if quick else 40
+    k = 4 if quick else 30
     nmax = 40 if quick else 150
     for _ in range(500 * k):
         case = gen_partition_case(ctx.rng, nmax)
@@ -2047,6 +2099,8 @@ def oracles(ctx, quick):
         for kd in case['kinds']:
             ctx.branch('combine:values=' + kd)
         ctx.branch('combine:class=' + grid_kind(case['grids']))
+        if len(case['pnames']) >= 2:
+            ctx.branch('combine:names=' + case['name_kind'])
         note_case(ctx, case)
 
 
@@ -2107,7 +2161,10 @@ def check(ctx):
                              'R5:value-0', 'R5:choice_num-1', 'R5:single-combination', 'R5:empty-value-list',
                              'R6:scale-1e12', 'R6:scale-1e-12', 'script:R6:scale-1e12', 'script:R6:scale-1e-12',
                              'R7:chunk-in-three-accumulators', 'script:R7:result-merged-into-two',
-                             'script:R7:resultset-operand-twice',
+                             'script:R7:resultset-operand-twice', 'combine:names=digits', 'combine:names=case',
+                             'combine:names=prefix', 'combine:names=leading', 'combine:names=unicode',
+                             'script:names=digits', 'script:names=case', 'script:names=prefix', 'script:names=leading',
+                             'script:names=unicode',
                              'script:values=big', 'script:values=ulp', 'script:values=mixed']
     try:
         correspondence(ctx, quick)
